@@ -2008,6 +2008,11 @@ func ruleProcBothMaps(c *Ctx) []Obligation {
 			return
 		}
 		switch x := v.(type) {
+		case *ssa.Parameter, *ssa.FreeVar:
+			// a private helper's parameter is the argument at its call site (inline.go)
+			if r := resolveArg(v); r != v {
+				tables(r, seen, out)
+			}
 		case *ssa.Phi:
 			for _, e := range x.Edges {
 				tables(e, seen, out)
@@ -2093,6 +2098,75 @@ func ruleProcBothMaps(c *Ctx) []Obligation {
 				missing = "Modules.Modules"
 			}
 			obs = append(obs, bad(R, con, c.InstrPos(at), "no call of the phase takes its entry from "+missing+": the trees filed there skip the phase (a table was visited twice, or one was left out)"))
+		}
+	}
+	// … and every single pass does: the calls of one phase that no call of another phase separates form a pass, and
+	// each pass takes its entries from both tables (Process runs FixChoice twice and Augment twice)
+	type site struct {
+		at     ssa.Instruction // as Process sees it
+		callee *ssa.Function
+		from   map[*types.Var]bool
+	}
+	var sites []site
+	phaseFns := map[*ssa.Function]string{}
+	for _, n := range []string{"yang.(*Entry).FixChoice", "yang.(*Entry).Augment", "yang.(*Entry).ApplyDeviate"} {
+		if f := c.Fn(n); f != nil {
+			phaseFns[f] = n
+		}
+	}
+	for f := range phaseFns {
+		for _, ci := range c.callsToDeep(proc, f) {
+			if len(ci.Common().Args) == 0 {
+				continue
+			}
+			l := liftTo(ci.(ssa.Instruction), proc)
+			if l == nil {
+				continue
+			}
+			from := map[*types.Var]bool{}
+			tables(ci.Common().Args[0], map[ssa.Value]bool{}, from)
+			sites = append(sites, site{l, f, from})
+		}
+	}
+	sort.Slice(sites, func(i, j int) bool { return sites[i].at.Pos() < sites[j].at.Pos() })
+	between := func(a, x, b ssa.Instruction) bool {
+		return reaches(a, x) && reaches(x, b) && !reaches(x, a)
+	}
+	perCallee := map[*ssa.Function]int{}
+	for i, s := range sites {
+		perCallee[s.callee]++
+		got := map[*types.Var]bool{}
+		for j, t := range sites {
+			if t.callee != s.callee {
+				continue
+			}
+			separated := false
+			if i != j {
+				for _, x := range sites {
+					if x.callee == s.callee {
+						continue
+					}
+					if between(s.at, x.at, t.at) || between(t.at, x.at, s.at) {
+						separated = true
+					}
+				}
+			}
+			if !separated {
+				for f := range t.from {
+					got[f] = true
+				}
+			}
+		}
+		short := strings.TrimPrefix(phaseFns[s.callee], "yang.(*Entry).")
+		con := fmt.Sprintf("Process: the pass of %s call #%d covers the modules and the submodules", short, perCallee[s.callee])
+		if got[fM] && got[fS] {
+			obs = append(obs, ok(R, con, c.InstrPos(s.at), "this call and its neighbours of the same pass take entries from both tables"))
+		} else {
+			missing := "Modules.SubModules"
+			if !got[fM] {
+				missing = "Modules.Modules"
+			}
+			obs = append(obs, bad(R, con, c.InstrPos(s.at), "no call of this pass takes its entry from "+missing+": the trees filed there skip this pass, which a later pass of the same phase does not make up for (what ran in between saw them unprepared)"))
 		}
 	}
 	return obs
